@@ -27,10 +27,57 @@ EXPLANATION = (
     "INFEASIBLE only under root-LP infeasible or (no incumbent and heap empty): the node-budget exit must be "
     "discriminated; (O5) the branching step pushes exactly the floor child and the ceil child of one variable; (O6) "
     "root bound tightening is dominated by the explicit-row detector; (O7) the incumbent pair is assigned from a point "
-    "and the cost of that same point, and published together. NOT decided: LP numerics, true optimality/feasibility."
+    "and the cost of that same point, and published together. (O9) the certifier _is_feasible tests every component for non-negativity, every integer variable for integrality and every row; (O10) bound tests prune with the numerical tolerance only. NOT decided: LP numerics, true optimality/feasibility."
 )
 
 MOD = "milp"
+
+
+def check_certifier_and_slack(ctx: Ctx):
+    # O9 the certifier looks at every component / every integer index / every row
+    cf = ctx.func("milp", CERT)
+    sign_tests = []
+    for n in ast.walk(cf.node):
+        if isinstance(n, ast.Compare) and len(n.ops) == 1 and atom_of(ast.unparse(n)) == atom_of("x[j] < -eps"):
+            sign_tests.append(n)
+    ctx.floor("sign tests in _is_feasible", len(sign_tests), 1)
+    parents = {}
+    for n in ast.walk(cf.node):
+        for c in ast.iter_child_nodes(n):
+            parents[id(c)] = n
+    for t in sign_tests:
+        # the binder of j: enclosing comprehension generator or for loop
+        idx = ast.unparse(t.left.slice if isinstance(t.left, ast.Subscript) else t.comparators[0].slice)
+        dom = None
+        n = t
+        while n is not None and dom is None:
+            n = parents.get(id(n))
+            if isinstance(n, (ast.GeneratorExp, ast.ListComp, ast.SetComp)):
+                for g in n.generators:
+                    if ast.unparse(g.target) == idx:
+                        dom = ast.unparse(g.iter)
+            elif isinstance(n, ast.For) and ast.unparse(n.target) == idx:
+                dom = ast.unparse(n.iter)
+        ctx.ob("C04-O9", "R14 GATE", cf, "the certifier tests every component of the point for non-negativity", dom in ("range(n)", "range(len(x))"), f"the sign test ranges over `{dom}`: a negative continuous component passes, and a warm start (or heuristic point) violating x >= 0 becomes the incumbent", node=t)
+    tcf = ast.unparse(cf.node)
+    ctx.ob("C04-O9", "R14 GATE", cf, "the certifier tests integrality of every integer variable and every row of Ax <= b", "for j in int_set:" in tcf and "abs(x[j] - round(x[j])) > eps" in tcf and "for i, row in enumerate(A):" in tcf and "lhs > b[i] + eps" in tcf.replace("if lhs", "lhs"), "", node=cf.node)
+    # O10 bound tests prune with the numerical tolerance only
+    f = ctx.func("milp", "solve_milp")
+    n_prune = 0
+    for g in [f] + [h for h in ctx.repo.callees(f) if h.module is f.module]:
+        for n in ast.walk(g.node):
+            if isinstance(n, ast.BinOp) and isinstance(n.op, ast.Sub) and "best_obj" in {x.id for x in ast.walk(n.left) if isinstance(x, ast.Name)} and isinstance(parents_of(g.node).get(id(n)), ast.Compare):
+                n_prune += 1
+                ctx.ob("C04-O10", "R1 STATUS-GUARD", g, "a node is pruned against the incumbent with the numerical tolerance only", ast.unparse(n.right) == "eps", f"`{ast.unparse(n)}`: any larger slack discards nodes that still hold a better point (with continuous variables an improvement can be arbitrarily small) and the incumbent is then labelled OPTIMAL", node=n)
+    ctx.floor("incumbent bound tests", n_prune, 3)
+
+
+def parents_of(fn_node):
+    out = {}
+    for n in ast.walk(fn_node):
+        for c in ast.iter_child_nodes(n):
+            out[id(c)] = n
+    return out
 
 
 def run(ctx: Ctx):
@@ -45,6 +92,7 @@ def run(ctx: Ctx):
 
 
 # -- O1 ------------------------------------------------------------------------------------------
+    check_certifier_and_slack(ctx)
     generic_sweeps(ctx)
 
 
@@ -478,6 +526,18 @@ def _v_round_no_gate(tree):
     M.replace_stmt(g, lambda s: isinstance(s, ast.If) and M.src_has(s.test, "not _is_feasible(sol"), [])
 
 
+def _v_sign_test_integers_only(tree):
+    g = M.find_func(tree, "_is_feasible")
+    M.replace_stmt(g, lambda s: isinstance(s, ast.If) and M.src_has(s.test, "x[j] < -eps"), [])
+    M.replace_expr(g, lambda e: M.src_is(e, "abs(x[j] - round(x[j])) > eps"), M.expr("x[j] < -eps or abs(x[j] - round(x[j])) > eps"))
+
+
+def _v_integral_cutoff(tree):
+    g = M.find_func(tree, "solve_milp")
+    M.replace_stmt(g, lambda s: isinstance(s, ast.While) and M.src_has(s.test, "nodes_explored < max_nodes"), lambda s: M.stmts("integral_obj = all(float(cj).is_integer() for cj in c)\ncutoff = 1.0 - eps if integral_obj else eps") + [s])
+    M.replace_expr(g, lambda e: M.src_is(e, "sign * best_obj - eps"), M.expr("sign * best_obj - cutoff"), count=2)
+
+
 def _t_reformat(tree):
     pass
 
@@ -513,6 +573,8 @@ VARIANTS = [
     M.Variant("incumbent solution updated without its objective", ML, _v_stale_objective, "C04-O7"),
     M.Variant("OPTIMAL regardless of open nodes", ML, _v_optimal_after_budget, "C04-O4"),
     M.Variant("rounding heuristic returns unchecked vector", ML, _v_round_no_gate, "C04-O3"),
+    M.Variant("_is_feasible tests the sign of integer variables only (seed C04-E)", ML, _v_sign_test_integers_only, "C04-O9"),
+    M.Variant("nodes pruned with slack 1 - eps when all costs are integers (seed C04-F)", ML, _v_integral_cutoff, "C04-O10"),
     M.Variant("twin: reformat", ML, _t_reformat, None),
     M.Variant("twin: rename bound locals", ML, _t_rename, None),
     M.Variant("twin: status conditional written the other way", ML, _t_flag_status, None),
